@@ -207,7 +207,11 @@ pub fn san_fuzz(w: &World, seed: u64, cx: &mut Ctx) -> R {
         }
     }
     // under-specified and over-specified forms of real moves
-    for &mv in w.legal.iter().take(10) {
+    let mut chosen: Vec<MMove> = w.legal.iter().copied().filter(|x| x.promo != 0).take(4).collect();
+    for _ in 0..8 {
+        chosen.push(*rng.pick(&w.legal));
+    }
+    for mv in chosen {
         if m.is_castle(mv) {
             continue;
         }
@@ -215,6 +219,12 @@ pub fn san_fuzz(w: &World, seed: u64, cx: &mut Ctx) -> R {
         let pl = if k == PAWN { String::new() } else { KIND_UPPER[k as usize].to_string() };
         let promo = if mv.promo != 0 { format!("={}", KIND_UPPER[(mv.promo - 1) as usize]) } else { String::new() };
         let x = if m.is_capture(mv) { "x" } else { "" };
+        if k == PAWN {
+            // promotion pieces that can never be right, with and without '=' (on promoting and other pawn moves)
+            for bad in ["=K", "=P", "K", "P", "=k", "=q"] {
+                check_read(w, &format!("{}{}{}", if m.is_capture(mv) { format!("{}x", (b'a' + (mv.from & 7)) as char) } else { String::new() }, sq_name(mv.to), bad), cx)?;
+            }
+        }
         for t in [
             format!("{}{}{}{}", pl, x, sq_name(mv.to), promo),
             format!("{}{}{}{}{}", pl, sq_name(mv.from), x, sq_name(mv.to), promo),
